@@ -355,6 +355,10 @@ class CSSStyleDeclaration(CSS2Properties, cssutils.util.Base2):
         )
         # wellformed set by parse
 
+        for item in self.seq:
+            # replaced properties are not part of this block anymore
+            if isinstance(item.value, Property):
+                item.value._parent = None
         for item in newseq:
             item.value._parent = self
 
@@ -583,6 +587,8 @@ class CSSStyleDeclaration(CSS2Properties, cssutils.util.Base2):
             for item in self.seq:
                 if not (isinstance(item.value, Property) and item.value.name == nname):
                     newseq.appendItem(item)
+                else:
+                    item.value._parent = None
         else:
             # remove all properties with literalname == name
             for item in self.seq:
@@ -590,6 +596,8 @@ class CSSStyleDeclaration(CSS2Properties, cssutils.util.Base2):
                     isinstance(item.value, Property) and item.value.literalname == name
                 ):
                     newseq.appendItem(item)
+                else:
+                    item.value._parent = None
         self._setSeq(newseq)
         return r
 
